@@ -83,6 +83,10 @@ def plan(seed, subbatch):
             head, _, field = spec["params"]["input_value"].partition(".")
             spec["params"]["input_value"] = f"{head}_{tf}" + (f".{field}" if field else "")
     config["fill"] = fill
+    if tf and config["kind"] == "indicator" and sub_rng(seed, "companion").random() < 0.12:
+        # the indicator as a member of a Hexital next to another member on a coarser multiple of its timeframe
+        # (both timeframes new to the Hexital, the finer one first): appends must stay total for every member
+        config["companion_tf"] = f"{tf[0]}{int(tf[1:]) * sub_rng(seed, 'companion-k').choice((2, 2, 3, 4))}"
     if config["kind"] == "indicator" and sub_rng(seed, "ctype").random() < 0.12:
         spec["common"]["candlestick_type"] = "HA"
     config["base_s"] = base_s
@@ -134,6 +138,11 @@ def plan(seed, subbatch):
 
 
 def _build(cfg, rows):
+    if cfg["kind"] == "indicator" and cfg.get("companion_tf"):
+        ind = build(cfg["spec"])
+        mate = build({"cls": "EMA", "params": {"period": 2}, "common": {"timeframe": cfg["companion_tf"]}})
+        hx = Hexital("sim", mk_candles(rows), [ind, mate], timeframe_fill=cfg.get("fill", False))
+        return hx, ind
     if cfg["kind"] == "indicator":
         ind = build(cfg["spec"], rows)
         return ind, ind
